@@ -43,6 +43,8 @@ struct Scn {
     check: bool,
     transit: f64,
     inband_fti: bool,
+    /// the application calls cleanup() around every push (a timer): housekeeping must not change what is delivered
+    cleanup: bool,
 }
 
 fn fdt_packets(tsi: u64, inst: &Inst, sct: bool, hi_only: bool, data_len: usize, md5: &str, e: usize) -> Vec<Vec<u8>> {
@@ -107,7 +109,13 @@ fn run(s: &Scn, skew: f64, data: &[u8]) -> Result<Outcome, util::PanicInfo> {
         let mut rx = MultiReceiver::new(b, Some(cfg), false);
         let ep = UDPEndpoint::new(None, "224.0.0.1".into(), 3400);
         for (t, p) in &timeline {
+            if s.cleanup {
+                rx.cleanup(st(*t));
+            }
             let _ = rx.push(&ep, p, st(*t));
+            if s.cleanup {
+                rx.cleanup(st(*t));
+            }
         }
         drop(rx);
         let l = log.borrow();
@@ -149,7 +157,7 @@ fn main() {
     let prop = Property {
         id: "C19",
         level: "exploration",
-        rule: "hand-built sessions (independent encoder) with full control of the sender clock stamped in EXT_TIME, the Expires value and the receiver clock of every push: receiver skew {0, +-3 s, +-60 s, +-1 h, +-1 y, -30 y, +11 y} x transit {0, 0.2 s} x FDT duration {5 s, 30 s, 1 h} x object emitted at Expires -10 s/-3 s/+3 s/+10 s/+1 h x sender time absent / SCT-High+SCT-Low / SCT-High only x expiry check on/off x FDT-before-object / object-before-FDT x instance renewed by a later one or not x FDT emitted after its own expiry x in-band/FDT-only FTI; oracle 1: delivered iff a complete instance listing the object is unexpired at the estimated sender instant of the delivery start (reference computed from the scenario, +-2 s around Expires never generated); oracle 2 (metamorphic): with SCT the writer log is identical for every skew; oracle 3: objects announced only by expired instances get no writer at all; a case is one scenario x all skews, non-trivial when at least one writer or FDT callback was observed; distinct = scenario parameters",
+        rule: "hand-built sessions (independent encoder) with full control of the sender clock stamped in EXT_TIME, the Expires value and the receiver clock of every push: receiver skew {0, +-3 s, +-60 s, +-1 h, +-1 y, -30 y, +11 y} x transit {0, 0.2 s} x FDT duration {5 s, 30 s, 1 h} x object emitted at Expires -10 s/-3 s/+3 s/+10 s/+1 h x sender time absent / SCT-High+SCT-Low / SCT-High only x expiry check on/off x FDT-before-object / object-before-FDT x with / without cleanup() calls around every push x instance renewed by a later one or not x FDT emitted after its own expiry x in-band/FDT-only FTI; oracle 1: delivered iff a complete instance listing the object is unexpired at the estimated sender instant of the delivery start (reference computed from the scenario, +-2 s around Expires never generated); oracle 2 (metamorphic): with SCT the writer log is identical for every skew; oracle 3: objects announced only by expired instances get no writer at all; a case is one scenario x all skews, non-trivial when at least one writer or FDT callback was observed; distinct = scenario parameters",
         assumptions: vec![
             "an object already attached while its FDT was valid may finish later (the property constrains the start of delivery)".into(),
             "receiver clocks before 1970 or after the NTP era end are not generated".into(),
@@ -212,7 +220,9 @@ fn main() {
                                         }
                                         _ => {}
                                     }
-                                    scns.push(Scn { insts, ts_obj, object_first, sct, sct_hi_only, check, transit, inband_fti });
+                                    for cleanup in [false, true] {
+                                        scns.push(Scn { insts: insts.clone(), ts_obj, object_first, sct, sct_hi_only, check, transit, inband_fti, cleanup });
+                                    }
                                 }
                             }
                         }
@@ -256,7 +266,7 @@ fn main() {
                 any |= !o.writers.is_empty() || o.fdt_callbacks > 0;
                 let delivered = o.writers.iter().any(|w| w.0.ends_with("C"));
                 let want = expected(s, skew);
-                let f = |v: Violation| v.with("sct", s.sct).with("sct_hi_only", s.sct_hi_only).with("check", s.check).with("object_first", s.object_first).with("instances", s.insts.len() as u64).with("skew_zero", skew == 0.0).with("skew_sign", if skew < 0.0 { "neg" } else { "pos" }).with("skew_abs_gt_1day", skew.abs() > 86400.0);
+                let f = |v: Violation| v.with("sct", s.sct).with("sct_hi_only", s.sct_hi_only).with("cleanup_calls", s.cleanup).with("check", s.check).with("object_first", s.object_first).with("instances", s.insts.len() as u64).with("skew_zero", skew == 0.0).with("skew_sign", if skew < 0.0 { "neg" } else { "pos" }).with("skew_abs_gt_1day", skew.abs() > 86400.0);
                 if delivered != want {
                     cr.violations.push(f(Violation::new(if want { "valid_fdt_but_not_delivered" } else { "delivered_through_expired_fdt" }, format!(
                         "receiver skew {} s: object {} although the reference says {} (writers {:?}); scenario {:?}", skew, if delivered { "delivered" } else { "not delivered" }, if want { "deliver" } else { "do not deliver" }, o.writers, s)))
